@@ -48,6 +48,7 @@ def units(tier, variant):
     # either side (in front of the launch plane when the stop is beyond the focal plane)
     for gap in (0.8, 0.95, 1.05, 1.3, 2.0):
         out.append(dict(kind='word', word=[0, 1, 5], stop=2, variant=variant, gap_factor=gap))
+    out.append(dict(kind='concave-first', variant=variant))
     out.append(dict(kind='distributions', variant=variant))
     out.append(dict(kind='vignetting', variant=variant))
     return out
@@ -140,6 +141,18 @@ def check_launch(part, o, rows, obj, ap, ft, tele, mf, det, extra=''):
                 i = int(np.argmax(np.max(np.abs(hit - exp), axis=1)))
                 part.violation(PID, 'aim-at-pupil-point', 'RayGenerator.generate_rays', c, dict(d2, ray=i),
                                observed=hit[i], expected=exp[i], tol=TOL)
+            if math.isinf(obj) and rows[1]['shape'] in ('plane', 'sphere', 'conic'):
+                # the ray starts in object space: the start point precedes the point where its line meets the first surface
+                from vmc.ref import geom as G
+                far = 1e4
+                Pl, Dl = G.to_local(rows[1], O - far * D, D)
+                t1, st1 = G.intersect(rows[1], Pl, Dl)
+                okk = st1 == 1
+                if np.any(okk) and np.min(t1[okk] - far) < -1e-9:
+                    i = int(np.argmin(np.where(okk, t1 - far, np.inf)))
+                    part.violation(PID, 'start-point-in-object-space', 'RayGenerator.generate_rays', c, dict(d2, ray=i),
+                                   observed=dict(start=O[i], distance_to_first_surface=float(t1[i] - far)),
+                                   expected='start point in front of the first surface along the ray')
             if math.isinf(obj):
                 # collimated: every ray at angle Hy * max field
                 th = math.radians(Hy * mf)
@@ -352,7 +365,19 @@ def run_vignetting(part, unit):
 
 def run_unit(unit):
     part = Part(unit)
-    if unit['kind'] == 'word':
+    if unit['kind'] == 'concave-first':
+        # a meniscus whose first surface is concave towards the object, narrow beam, wide field: the beam meets the surface where
+        # its sag is further from the vertex than the entrance pupil diameter
+        g = ['ideal', 1.5, 0.0]
+        for R1, fld, epd in ((-20.0, 20.0, 0.5), (-20.0, 30.0, 2.0), (-50.0, 25.0, 1.0)):
+            surfs = [S('sphere', R=R1, mat=g, t=3.0), S('sphere', R=0.75 * R1, mat='air', t=12.0), S('plane', mat='air', t=40.0, stop=True)]
+            sp = LZ.spec(surfs, obj=LZ.INF, ap=('EPD', epd), ftype='angle', fields=(0.0, 0.6 * fld, fld), waves=((0.5876, True),))
+            o = LZ.build(sp)
+            part.states += 1
+            rows = prescription.rows(sp, lambda m, prev: LZ.ref_index(m, 0.5876, prev))
+            check_launch(part, o, rows, LZ.INF, ('EPD', epd), 'angle', False, fld, dict(lens='concave-first meniscus', R1=R1, field=fld, epd=epd),
+                         extra=',first-surface-concave-to-the-object')
+    elif unit['kind'] == 'word':
         run_word(part, unit)
     elif unit['kind'] == 'distributions':
         run_distributions(part, unit)
